@@ -424,38 +424,50 @@ fn res_key(r: &Res) -> String {
     }
 }
 
-/// C05: H (with rejected calls) vs H' (rejected calls deleted): all surviving results, the
-/// statistics and the final bytes must be identical.
-pub fn c05_issues(cfg: &Cfg, tr: &Trace) -> (Vec<(String, String)>, Option<Trace>) {
+/// C05: for EVERY rejected call r of history H, H without r must give the same result for every
+/// other call (accepted or rejected alike), the same statistics and the same output bytes; and
+/// so must H with all rejected calls removed at once. Differential: no hand-written expectation.
+pub fn c05_issues(cfg: &Cfg, tr: &Trace) -> (Vec<(String, String)>, u64) {
     let mut out = vec![];
-    let writes: Vec<usize> = (0..tr.ops.len()).filter(|&i| !tr.ops[i].is_finish()).collect();
-    let rejected: Vec<usize> = writes.iter().copied().filter(|&i| matches!(tr.results[i], Res::Err(..))).collect();
+    let mut runs = 0u64;
+    let rejected: Vec<usize> = (0..tr.ops.len()).filter(|&i| !tr.ops[i].is_finish() && matches!(tr.results[i], Res::Err(..))).collect();
     if rejected.is_empty() || tr.results.iter().any(|r| matches!(r, Res::Panic(_))) {
-        return (out, None);
+        return (out, runs);
     }
-    let kept: Vec<usize> = (0..tr.ops.len()).filter(|i| !rejected.contains(i)).collect();
-    let ops2: Vec<Op> = kept.iter().map(|&i| tr.ops[i].clone()).collect();
-    let tr2 = run_ops(cfg, &ops2);
     let reason = |i: usize| match &tr.results[i] {
         Res::Err(c, _) => format!("{c:?}"),
         _ => "?".into(),
     };
-    let first_reason = reason(rejected[0]);
-    for (k, &i) in kept.iter().enumerate() {
-        if res_key(&tr.results[i]) != res_key(&tr2.results[k]) {
-            let what = if tr.ops[i].is_finish() { "finish-result" } else { "later-decision" };
-            out.push((
-                format!("{what}-differs"),
-                format!("(first rejection: {first_reason}) call {} gives {} with the rejected calls present and {} with them removed", tr.ops[i].brief(), tr.results[i].brief(), tr2.results[k].brief()),
-            ));
+    let mut variants: Vec<(Vec<usize>, String)> = rejected.iter().map(|&r| (vec![r], format!("rejected call {r} {} ({})", tr.ops[r].brief(), reason(r)))).collect();
+    if rejected.len() > 1 {
+        variants.push((rejected.clone(), format!("all {} rejected calls", rejected.len())));
+    }
+    for (removed, what) in variants {
+        let kept: Vec<usize> = (0..tr.ops.len()).filter(|i| !removed.contains(i)).collect();
+        let ops2: Vec<Op> = kept.iter().map(|&i| tr.ops[i].clone()).collect();
+        let tr2 = run_ops(cfg, &ops2);
+        runs += 1;
+        let mut differs = false;
+        for (k, &i) in kept.iter().enumerate() {
+            if res_key(&tr.results[i]) != res_key(&tr2.results[k]) {
+                let kind = if tr.ops[i].is_finish() { "finish-result" } else { "later-decision" };
+                out.push((
+                    format!("{kind}-differs"),
+                    format!("removing {what}: call {} gives {} with it present and {} with it removed", tr.ops[i].brief(), res_key(&tr.results[i]).chars().take(160).collect::<String>(), res_key(&tr2.results[k]).chars().take(160).collect::<String>()),
+                ));
+                differs = true;
+                break;
+            }
+        }
+        if !differs && tr.bytes != tr2.bytes {
+            let pos = tr.bytes.iter().zip(&tr2.bytes).position(|(a, b)| a != b).unwrap_or(tr.bytes.len().min(tr2.bytes.len()));
+            out.push(("file-differs".to_string(), format!("removing {what}: output differs at byte {pos} (lengths {} / {})", tr.bytes.len(), tr2.bytes.len())));
+        }
+        if !out.is_empty() {
             break;
         }
     }
-    if out.is_empty() && tr.bytes != tr2.bytes {
-        let pos = tr.bytes.iter().zip(&tr2.bytes).position(|(a, b)| a != b).unwrap_or(tr.bytes.len().min(tr2.bytes.len()));
-        out.push(("file-differs".to_string(), format!("(first rejection: {first_reason}) output differs at byte {pos} (lengths {} / {})", tr.bytes.len(), tr2.bytes.len())));
-    }
-    (out, Some(tr2))
+    (out, runs)
 }
 
 /// C06: sink silence before/after, single successful finish, statistics.
@@ -709,7 +721,7 @@ pub fn collect(ctx: &Ctx, which: Which) -> (Tally, Meta) {
             vec!["the contract model (oracle/src/model.rs) is a transcription of docs/contract.md and the statement of C04; header-only ADTS frames are accepted either way (statement lists both readings)".to_string()],
         ),
         Which::C05 => (
-            format!("every history of the C04 space ({desc}) x {} configurations that contains at least one rejected call is executed twice on the real muxer: as is (then finished) and with the rejected calls deleted (then finished); all surviving results, statistics and output bytes must be identical. Differential: no hand-written expectation.", cfgs.len()),
+            format!("every history of the C04 space ({desc}) x {} configurations that contains at least one rejected call is executed on the real muxer as is (then finished) and again with each rejected call deleted individually and with all of them deleted at once (then finished); every other call's result (accepted or rejected), the statistics and the output bytes must be identical. Differential: no hand-written expectation.", cfgs.len()),
             vec!["determinism of a single execution is C17's business and is self-checked there".to_string()],
         ),
         Which::C06 => (
@@ -746,12 +758,10 @@ pub fn explore_one(which: Which, cfg: &Cfg, fx: &Fixtures, syms: &[Sym], order: 
     let issues = match which {
         Which::C04 => c04_issues(&tr),
         Which::C05 => {
-            let (i, tr2) = c05_issues(cfg, &tr);
-            if let Some(tr2) = tr2 {
-                t.evaluations += 1;
-                t.transitions += tr2.ops.len() as u64;
-                t.count("differential_pairs", 1);
-            }
+            let (i, runs) = c05_issues(cfg, &tr);
+            t.evaluations += runs;
+            t.transitions += runs * tr.ops.len() as u64;
+            t.count("differential_runs", runs);
             i
         }
         Which::C06 => c06_issues(cfg, &tr),
